@@ -443,3 +443,115 @@ Section Facts.
     apply Z.leb_le. lia.
   Qed.
 End Facts.
+
+(* ------------------------------------------------------------------------------------------
+   fail() as its two primitives (stop the helper ; write the failed stamp) with the helper as a
+   concurrent process, and the start of the helper.  No assumption on time stamps is needed. *)
+Section FailOrder.
+  Variable p : params.
+
+  (* events after which the lock file, once marked, still carries the failed stamp: everything
+     except its removal (release(), rm / cleanup --locks-only, cleanup --failed-only) *)
+  Definition keeps_lock (e : event) : Prop := e <> ERelease /\ e <> EUnlink /\ e <> ECleanup.
+
+  Lemma mon_done_stays : forall evs w, w_mon w = MDone -> w_mon (exec p w evs) = MDone.
+  Proof.
+    induction evs as [|[t e] r IH]; intros w Hm; simpl; [exact Hm|]. apply IH.
+    destruct w as [now lock alive held m]. simpl in Hm. subst m. unfold step, mon_step. destruct e; crush.
+  Qed.
+
+  (* an ended helper never touches the lock again *)
+  Lemma mon_done_no_refresh : forall evs w, w_mon w = MDone -> forall t, ~ In (ORefresh t) (outs p w evs).
+  Proof.
+    induction evs as [|[t e] r IH]; intros w Hm u Hin; simpl in *; [exact Hin|].
+    apply in_app_or in Hin. destruct Hin as [Hin|Hin].
+    - destruct w as [now lock alive held m]. simpl in Hm. subst m. unfold step, mon_step, kill_out in Hin.
+      destruct e; crush; try discriminate.
+    - refine (IH _ _ u Hin). apply (mon_done_stays [(t, e)] w Hm).
+  Qed.
+
+  (* the lock file carries the failed stamp and the helper has ended *)
+  Definition minv (w : world) : Prop := w_lock w = Some (p_failed_ts p) /\ w_mon w = MDone.
+
+  Lemma minv_step : forall w te, minv w -> keeps_lock (snd te) -> minv (fst (step p w te)).
+  Proof.
+    intros [now lock alive held m] [t e] [Hl Hm] (H1 & H2 & H3). simpl in *. subst lock m.
+    unfold minv, step, mon_step. destruct e; simpl in *; try congruence; crush.
+  Qed.
+
+  Lemma minv_exec : forall evs w, minv w -> Forall (fun te => keeps_lock (snd te)) evs -> minv (exec p w evs).
+  Proof.
+    induction evs as [|te r IH]; intros w M Hall; simpl; [exact M|].
+    inversion Hall; subst. apply IH; [apply minv_step; assumption | assumption].
+  Qed.
+
+  Lemma stop_ends_monitor : forall w t, w_alive w = true -> w_mon (fst (step p w (t, EFailStop))) = MDone.
+  Proof. intros [now lock alive held m] t Ha. simpl in Ha. subst alive. reflexivity. Qed.
+
+  (* EFail is its two primitives with nothing in between *)
+  Lemma fail_is_stop_then_mark : forall w t, w_alive w = true ->
+    exec p w [(t, EFailStop); (t, EFailMark)] = fst (step p w (t, EFail)) /\
+    outs p w [(t, EFailStop); (t, EFailMark)] =
+      snd (step p w (t, EFail)) ++ [OMarked t (match w_lock w with Some _ => true | None => false end)].
+  Proof.
+    intros [now lock alive held m] t Ha. simpl in Ha. subst alive.
+    destruct m, lock; split; reflexivity.
+  Qed.
+
+  (* fail() in the order of the source: stop the helper at t1; ANY events in between (wake-ups of the
+     helper, other clients, ...); write the failed stamp at t2; ANY events afterwards.
+     (i) the helper never refreshes the lock after the first primitive;
+     (ii) if the stamp was written (fail() returns True) then, as long as nobody removes the lock
+     file, it keeps the failed stamp: is_locked() and is_failed() answer True at every
+     t >= failed stamp + expiry, whatever the helper or anybody else does. *)
+  Theorem fail_in_order_sticky : forall w t1 mid t2 post,
+    w_alive w = true ->
+    let w1 := exec p w ((t1, EFailStop) :: mid) in
+    let w2 := fst (step p w1 (t2, EFailMark)) in
+    (forall t, ~ In (ORefresh t) (outs p (fst (step p w (t1, EFailStop))) (mid ++ (t2, EFailMark) :: post))) /\
+    (snd (step p w1 (t2, EFailMark)) = [OMarked t2 true] ->
+     forall post1 post2, post = post1 ++ post2 ->
+       Forall (fun te => keeps_lock (snd te)) post1 ->
+       w_lock (exec p w2 post1) = Some (p_failed_ts p) /\
+       forall t, p_failed_ts p + p_expiry p <= t ->
+         snd (step p (exec p w2 post1) (t, EQuery)) = [OLocked t true; OFailed t true] /\
+         snd (step p (exec p w2 post1) (t, EGet)) = [OGet t false]).
+  Proof.
+    intros w t1 mid t2 post Ha w1 w2. split.
+    - intros t. apply mon_done_no_refresh. apply stop_ends_monitor. exact Ha.
+    - intros Hout post1 post2 Hpost Hall.
+      assert (Hm1 : w_mon w1 = MDone).
+      { unfold w1. simpl. apply mon_done_stays. apply stop_ends_monitor. exact Ha. }
+      assert (M : minv w2).
+      { unfold w2. destruct w1 as [now lock alive held m]. simpl in Hm1. subst m.
+        unfold minv, step in *. simpl in *. destruct alive; simpl in *; [|discriminate Hout].
+        destruct lock; simpl in *; [split; reflexivity | discriminate Hout]. }
+      destruct (minv_exec post1 w2 M Hall) as [Hl _]. split; [exact Hl|].
+      intros t Ht. unfold step; simpl. rewrite Hl. simpl. unfold is_failed_ka.
+      assert (E : (p_failed_ts p <=? t - p_expiry p) = true) by (apply Z.leb_le; lia).
+      rewrite E. split; reflexivity.
+  Qed.
+
+  (* ---- the start of the helper *)
+  Lemma zlist_eqb_refl : forall a, zlist_eqb a a = true.
+  Proof. induction a as [|x a IH]; simpl; [reflexivity|]. rewrite Z.eqb_refl. exact IH. Qed.
+
+  (* started as start_monitor() does (inherited cwd, self.fullname unchanged) the helper addresses
+     the holder's lock file, for relative and absolute jugdirs alike *)
+  Lemma start_monitor_addresses_the_lock : forall (wcwd : list Z) (fullname : path),
+    helper_target wcwd (start_monitor_launch fullname) = lock_file wcwd fullname.
+  Proof. reflexivity. Qed.
+
+  (* in general: passing self.fullname unchanged is right iff the path is absolute or the helper's
+     working directory is the holder's *)
+  Lemma unchanged_argument_iff : forall (wcwd : list Z) (c : option path) (fullname : path),
+    helper_target wcwd {| l_cwd := c; l_arg := fullname |} = lock_file wcwd fullname <->
+    (fst fullname = true \/ helper_cwd wcwd {| l_cwd := c; l_arg := fullname |} = wcwd).
+  Proof.
+    intros wcwd c [a comps]. unfold helper_target, lock_file, resolve; simpl. destruct a; simpl.
+    - split; intros _; [left; reflexivity | reflexivity].
+    - split.
+      + intros H. right. apply app_inv_tail in H. exact H.
+      + intros [H|H]; [discriminate H | rewrite H; reflexivity].
+  Qed.
+End FailOrder.
